@@ -53,6 +53,41 @@ pub fn fringe_fill_ops(seed: u64, fill: usize, nstates: u8, ndepths: usize) -> V
     v
 }
 
+/// fill / pop / RE-PUSH / drain histories: `fill` distinct keys, one or two pops (each sinks the moved last node), then
+/// two or more of the filled keys are pushed again (coalescing + re-heapify of nodes that were moved by a sift-down, or
+/// fresh entries for the popped ones, reusing recycled ids), then everything is drained
+pub fn fringe_repush_ops(seed: u64, fill: usize, nstates: u8, ndepths: usize) -> Vec<FOp> {
+    let mut r = Rng(seed.wrapping_mul(0x9E37) ^ 0xf222);
+    let mut keys: Vec<(u8, usize)> = vec![];
+    for s in 0..nstates {
+        for d in 0..ndepths {
+            keys.push((s, d));
+        }
+    }
+    for i in (1..keys.len()).rev() {
+        let j = r.below(i as u64 + 1) as usize;
+        keys.swap(i, j);
+    }
+    let fill = fill.min(keys.len());
+    let mut v: Vec<FOp> = keys.iter().take(fill).map(|(s, d)| FOp::Push(*s, *d)).collect();
+    let pops = 1 + r.below(2) as usize;
+    for _ in 0..pops {
+        v.push(FOp::Pop);
+    }
+    let again = 2 + r.below((fill - 1).max(1) as u64) as usize;
+    for k in 0..again.min(fill) {
+        let (s, d) = keys[(k + r.below(fill as u64) as usize) % fill];
+        v.push(FOp::Push(s, d));
+        if k == 0 && r.chance(1, 3) {
+            v.push(FOp::Pop);
+        }
+    }
+    for _ in 0..fill + 1 {
+        v.push(FOp::Pop);
+    }
+    v
+}
+
 pub fn fringe_ops(seed: u64, len: usize, nstates: u8, ndepths: usize) -> Vec<FOp> {
     let mut r = Rng(seed.wrapping_mul(0x9E37) ^ 0xf00d);
     loop {
